@@ -335,6 +335,22 @@ theorem fire_quiet (E : Env) (H : Hooks) (k : HKey) (h' : Heap) (o : Id) (n : Na
   simp only [fire]
   exact callTrait_quiet E h' k o n old new _ H [] (hq _) hq (by intro d hd; cases hd)
 
+theorem refire_quiet (E : Env) (r1 : Out) (k : HKey) (o : Id) (n : Name) (cmp : Cmp) (old new : Val)
+    (hq : QuietInv r1.st.H k ∧ ∀ d ∈ r1.delivered, d.key ≠ k) :
+    QuietInv (refire E r1 o n cmp old new).st.H k ∧ ∀ d ∈ (refire E r1 o n cmp old new).delivered, d.key ≠ k := by
+  unfold refire
+  split
+  · exact hq
+  · split
+    · have h2 := fire_quiet E r1.st.H k r1.st.h o n old new hq.1
+      refine ⟨h2.1, ?_⟩
+      intro d hd
+      simp only [List.mem_append] at hd
+      rcases hd with hd | hd
+      · exact hq.2 d hd
+      · exact h2.2 d hd
+    · exact hq
+
 theorem mutate_quiet (E : Env) (st : St) (k : HKey) (m : Mutation) (hq : QuietInv st.H k) :
     QuietInv (mutate E st m).st.H k ∧ ∀ d ∈ (mutate E st m).delivered, d.key ≠ k := by
   have triv : QuietInv st.H k ∧ ∀ d ∈ ([] : List Delivered), d.key ≠ k := ⟨hq, by intro d hd; cases hd⟩
@@ -359,6 +375,15 @@ theorem mutate_quiet (E : Env) (st : St) (k : HKey) (m : Mutation) (hq : QuietIn
       · split
         · exact fire_quiet E st.H k _ o n _ _ hq
         · exact triv
+    · exact triv
+  | delField o n fresh =>
+    simp only [mutate]
+    split
+    · split
+      · exact triv
+      · split
+        · exact triv
+        · exact refire_quiet E _ k o n _ _ _ (fire_quiet E st.H k _ o n _ _ hq)
     · exact triv
   | addTrait o n tagged dflt =>
     simp only [mutate]
